@@ -22,8 +22,9 @@ const Rule = "case = (grammar, one transformation): description lines, the trans
 	"predictive.BuildParsingTable and the SLR/LALR/LR(1) table constructors); oracle = independent Go " +
 	"analyses (nullable fixpoint, unit graph, left-corner graph, pairwise first symbols, reachability): the " +
 	"op's own normal form holds, the result passes Verify() and the independent validity check, IsCNF() " +
-	"agrees with the independent CNF check, the receiver equals a clone taken before the call; grammars as " +
-	"in C08; non-trivial = the input did not already satisfy the op's post-condition (or, for `parsers`, " +
+	"agrees with the independent CNF check, the receiver equals a clone taken before the call AND renders to " +
+	"the same text as before (a deep rendering: Clone shares the production values); grammars as in C08 (incl. " +
+	"terminals named like non-terminals, pipelines T1 then T2, bodies of 99-104 symbols); non-trivial = the input did not already satisfy the op's post-condition (or, for `parsers`, " +
 	"a table was built); distinct = distinct (grammar, op)"
 
 // PostLine renders every post-condition for g (the result) relative to orig (the input), byte-identical to
@@ -159,9 +160,12 @@ func Exec(c hx.Case) hx.Result {
 		res.Outs = append(res.Outs, "ok")
 	}
 	valid, _ := c08.Valid(g)
-	inScope := valid && c08.Hygienic(g)
+	inScope := valid
 	if !inScope {
-		tags["input-not-valid-or-not-hygienic(oracle off)"] = true
+		tags["input-not-valid(oracle off)"] = true
+	}
+	if !c08.Hygienic(g) {
+		tags["in:names-with-reserved-suffix"] = true
 	}
 	for _, f := range c08.Features(g) {
 		tags[f] = true
@@ -176,8 +180,11 @@ func Exec(c hx.Case) hx.Result {
 		case (len(f) == 1 && c08.IsOp(f[0])) || (len(f) == 2 && f[0] == "post" && c08.IsOp(f[1])):
 			name := f[len(f)-1]
 			isPost := len(f) == 2
-			cfg := g.ToCFG()
+			cfg := c08.ToCFG(g)
 			before := cfg.Clone()
+			// Clone shares the *Production values with the original, so Equal cannot see an in-place edit of a
+			// production; the rendering below reads every symbol and is compared as text
+			snapshot := c08.FromCFG(cfg).Show()
 			out, kind, msg, hung := c08.Timed(name, cfg)
 			tags["op="+name] = true
 			if hung {
@@ -185,8 +192,8 @@ func Exec(c hx.Case) hx.Result {
 				bad(i, "", "%s did not return", name)
 				continue
 			}
-			if !cfg.Equal(before) {
-				bad(i, "", "%s mutated its receiver: %s became %s", name, gx.FromCFG(before).Show(), gx.FromCFG(cfg).Show())
+			if after := c08.FromCFG(cfg).Show(); !cfg.Equal(before) || after != snapshot {
+				bad(i, "", "%s mutated its receiver: %s became %s", name, snapshot, after)
 			}
 			if kind != "" {
 				res.Outs = append(res.Outs, "panic")
@@ -200,7 +207,7 @@ func Exec(c hx.Case) hx.Result {
 				}
 				continue
 			}
-			h := gx.FromCFG(out)
+			h := c08.FromCFG(out)
 			if isPost {
 				res.Outs = append(res.Outs, PostLine(g, h))
 			} else {
@@ -246,8 +253,9 @@ func Exec(c hx.Case) hx.Result {
 		case len(f) == 1 && f[0] == "parsers":
 			line := "ok unchanged"
 			for _, ct := range ctors {
-				cfg := g.ToCFG()
+				cfg := c08.ToCFG(g)
 				before := cfg.Clone()
+				snapshot := c08.FromCFG(cfg).Show()
 				var kind string
 				done := hx.WithTimeout(5e9, func() { kind = hx.Try(func() { ct.f(cfg) }) })
 				if !done {
@@ -259,9 +267,9 @@ func Exec(c hx.Case) hx.Result {
 				} else {
 					nontrivial = true
 				}
-				if !cfg.Equal(before) {
+				if after := c08.FromCFG(cfg).Show(); !cfg.Equal(before) || after != snapshot {
 					line = "ok MUTATED by " + ct.name
-					bad(i, "", "%s changed the caller's grammar: %s became %s", ct.name, gx.FromCFG(before).Show(), gx.FromCFG(cfg).Show())
+					bad(i, "", "%s changed the caller's grammar: %s became %s", ct.name, snapshot, after)
 					break
 				}
 			}
@@ -311,6 +319,46 @@ func Main(run *hx.Run) {
 			if smallForParsers(g) {
 				lim.Do(run, "parsers", hx.Case{Header: "comp=parsers mix=" + m.Name, Ops: append(g.Lines(), "parsers")}, Exec)
 			}
+		}
+	}
+	{
+		// terminals named like non-terminals (if → 'if e stmt)
+		r := run.R.Fork("keyword-names")
+		for k := 0; k < run.Scale(12); k++ {
+			g := c08.KeywordNames(r, c08.GenGrammar(r, c08.Mixes[k%len(c08.Mixes)]))
+			for _, op := range c08.OpsFor(g) {
+				lim.Do(run, op, caseFor(g, "keyword-names", op), Exec)
+			}
+			if smallForParsers(g) {
+				lim.Do(run, "parsers", hx.Case{Header: "comp=parsers mix=keyword-names", Ops: append(g.Lines(), "parsers")}, Exec)
+			}
+		}
+	}
+	{
+		// pipelines: every ordered pair (T₁, T₂)
+		r := run.R.Fork("pipelines")
+		for k := 0; k < run.Scale(6); k++ {
+			g := c08.GenGrammar(r, c08.Mixes[k%len(c08.Mixes)])
+			if r.Intn(4) == 0 {
+				g = c08.KeywordNames(r, g)
+			}
+			piped := c08.Piped(g)
+			for _, t1 := range c08.Ops {
+				h, ok := piped[t1]
+				if !ok {
+					continue
+				}
+				for _, t2 := range c08.OpsFor(h) {
+					lim.Do(run, t2, caseFor(h, "pipe-"+t1, t2), Exec)
+				}
+			}
+		}
+	}
+	{
+		// bodies around the limit of BIN's 99 numeric suffixes
+		for n := 99; n <= 104; n++ {
+			lim.Do(run, "cnfbin", caseFor(c08.LongBody(n, false), "long-body", "cnfbin"), Exec)
+			lim.Do(run, "cnf", caseFor(c08.LongBody(n, true), "long-body", "cnf"), Exec)
 		}
 	}
 	{
